@@ -697,11 +697,6 @@ theorem v3_no_close (v : V3) (h : V3OK v = true) : ')' ∉ v.str := by
 
 
 
-/-- v1: a face without displacement and without Strata point data. -/
-def SideOK1 (s : Side) : Bool :=
-  V3OK s.p0 && V3OK s.p1 && V3OK s.p2 && UVOK s.uaxis && UVOK s.vaxis && isNum s.rot &&
-  s.points.isNone && s.disp.isNone
-
 def sideLeaves (s : Side) : List KV := [
     kInt "id" s.id,
     kLeaf "plane" (wrap '(' ')' s.p0.str ++ ' ' :: wrap '(' ')' s.p1.str ++ ' ' :: wrap '(' ')' s.p2.str),
@@ -733,42 +728,172 @@ theorem parsePlanes_leaves (s : Side) (h0 : V3OK s.p0 = true) (h1 : V3OK s.p1 = 
   simp only []
   rw [parseV3_str _ _ h0, parseV3_str _ _ h1, parseV3_str _ _ h2]
 
-theorem parseSide_export1 (mb : Bool) (s : Side) (h : SideOK1 s = true) :
-    parseSide (exportSide mb s) = .ok s := by
-  simp only [SideOK1, Bool.and_eq_true, Option.isNone_iff_eq_none] at h
-  obtain ⟨⟨⟨⟨⟨⟨⟨h0, h1⟩, h2⟩, hu⟩, hv⟩, hr⟩, hp⟩, hd⟩ := h
-  have hexp : exportSide mb s = KV.block "side".toList (sideLeaves s) := by
-    simp [exportSide, hp, hd, sideLeaves, kBlock]
-  rw [hexp]
+
+
+/-! ### Strata `point_data` -/
+
+theorem notMem_showNat_space (n : Nat) : ' ' ∉ showNat n := by
+  intro h
+  have := showNat_all_digit n
+  simp only [List.all_eq_true] at this
+  have := this ' ' h
+  simp at this
+
+theorem getElem?_map_some_append_none (a : List V3) (r : List (Option V3)) :
+    (a.map some ++ none :: r)[a.length]? = some none := by
+  have : a.length = (a.map some).length := by simp
+  rw [this, List.getElem?_append_right (Nat.le_refl _)]
+  simp
+
+theorem setAt_map_some_append (a : List V3) (r : List (Option V3)) (p : V3) :
+    setAt (a.map some ++ none :: r) a.length (fun _ => some p) = (a ++ [p]).map some ++ r := by
+  induction a with
+  | nil => simp [setAt]
+  | cons x xs ih => simp [setAt, ih]
+
+theorem pointStep_point (done : List V3) (r : List (Option V3)) (p : V3) (hp : V3OK p = true) :
+    pointStep (done.map some ++ none :: r) (kLeaf "point" (showNat done.length ++ ' ' :: p.str))
+      = .ok ((done ++ [p]).map some ++ r) := by
+  have hn : named "point" (kLeaf "point" (showNat done.length ++ ' ' :: p.str)) = true := by kv_simp
+  have hs := splitFirst_pre ' ' (showNat done.length) p.str [] (notMem_showNat_space _)
+  simp only [List.append_nil, List.reverse_reverse] at hs
+  have hi : parseInt? (showNat done.length) = some (Int.ofNat done.length) := parseInt_showInt (Int.ofNat done.length)
+  simp only [kLeaf] at hn
+  simp only [pointStep, kLeaf, hn, if_true, hs, hi, getElem?_map_some_append_none, parseV3_str _ _ hp,
+    setAt_map_some_append]
+
+theorem foldE_points (done rest : List V3) (h : ∀ p ∈ rest, V3OK p = true) :
+    foldE pointStep (done.map some ++ List.replicate rest.length none) (pointLeaves done.length rest)
+      = .ok ((done ++ rest).map some) := by
+  induction rest generalizing done with
+  | nil => simp [pointLeaves, foldE]
+  | cons p ps ih =>
+    simp only [List.length_cons, List.replicate_succ, pointLeaves, foldE]
+    rw [pointStep_point done _ p (h p (by simp))]
+    simp only []
+    have := ih (done ++ [p]) (fun q hq => h q (by simp [hq]))
+    simp only [List.length_append, List.length_cons, List.length_nil, Nat.zero_add, List.append_assoc,
+      List.singleton_append] at this
+    exact this
+
+theorem collectPoints_some (l : List V3) : collectPoints (l.map some) = .ok l := by
+  induction l with
+  | nil => rfl
+  | cons a r ih => simp [collectPoints, ih]
+
+theorem pointLeaves_shape (i : Nat) (ps : List V3) :
+    ∀ k ∈ pointLeaves i ps, named "numpts" k = false := by
+  induction ps generalizing i with
+  | nil => intro k hk; simp [pointLeaves] at hk
+  | cons p r ih =>
+    intro k hk
+    simp only [pointLeaves, List.mem_cons] at hk
+    rcases hk with rfl | hk
+    · kv_simp
+    · exact ih _ k hk
+
+theorem parsePoints_export (pts : List V3) (h : ∀ p ∈ pts, V3OK p = true) :
+    parsePoints (kInt "numpts" pts.length :: pointLeaves 0 pts) = .ok pts := by
+  have hn : getInt "numpts" 0 (kInt "numpts" (pts.length : Int) :: pointLeaves 0 pts) = pts.length := by
+    unfold getInt getLeaf
+    have : findLast (fun k => named "numpts" k && !k.isBlock) ([kInt "numpts" (pts.length : Int)] ++ pointLeaves 0 pts)
+        = findLast (fun k => named "numpts" k && !k.isBlock) [kInt "numpts" (pts.length : Int)] :=
+      findLast_append_right_none _ _ _ (fun x hx => by simp [pointLeaves_shape 0 pts x hx])
+    simp only [List.singleton_append] at this
+    rw [this]
+    kv_simp
+    simp [parseInt_showInt]
+  unfold parsePoints
+  rw [hn]
+  have hstep : pointStep (List.replicate pts.length none) (kInt "numpts" (pts.length : Int))
+      = .ok (List.replicate pts.length none) := by
+    have : named "point" (kInt "numpts" (pts.length : Int)) = false := by kv_simp
+    simp [pointStep, this]
+  simp only [Int.toNat_natCast, foldE, hstep]
+  have := foldE_points [] pts h
+  simp only [List.map_nil, List.nil_append, List.length_nil] at this
+  rw [this]
+  exact collectPoints_some pts
+
+
+
+/-- the face fields other than point data and displacement -/
+def SideCoreOK (s : Side) : Bool :=
+  V3OK s.p0 && V3OK s.p1 && V3OK s.p2 && UVOK s.uaxis && UVOK s.vaxis && isNum s.rot
+
+theorem parseSide_core (nm : Str) (s : Side) (extra : List KV) (hb : ∀ k ∈ extra, k.isBlock = true)
+    (disp : Option Disp) (points : Option (List V3))
+    (hd : parseSideDisp (sideLeaves s ++ extra) = .ok disp)
+    (hp : parseSidePoints (sideLeaves s ++ extra) = .ok points)
+    (h : SideCoreOK s = true) :
+    parseSide (KV.block nm (sideLeaves s ++ extra)) = .ok { s with points := points, disp := disp } := by
+  simp only [SideCoreOK, Bool.and_eq_true] at h
+  obtain ⟨⟨⟨⟨⟨h0, h1⟩, h2⟩, hu⟩, hv⟩, hr⟩ := h
+  have gl : ∀ key, getLeaf key (sideLeaves s ++ extra) = getLeaf key (sideLeaves s) :=
+    fun key => getLeaf_append_blocks key _ _ hb
+  have hpl : parsePlanes (sideLeaves s ++ extra) = .ok (s.p0, s.p1, s.p2) := by
+    have := parsePlanes_leaves s h0 h1 h2
+    unfold parsePlanes at this ⊢
+    rw [gl]; exact this
   simp only [parseSide]
-  rw [parsePlanes_leaves s h0 h1 h2]
+  rw [hpl]
   simp only []
   have eu : getLeaf "uaxis" (sideLeaves s) = some s.uaxis.str := by unfold sideLeaves; kv_simp
   have ev : getLeaf "vaxis" (sideLeaves s) = some s.vaxis.str := by unfold sideLeaves; kv_simp
-  rw [eu, ev]
+  rw [gl, gl, eu, ev]
   simp only [Option.getD_some]
   rw [parseUV_str _ hu, parseUV_str _ hv]
   simp only []
-  have ed : parseSideDisp (sideLeaves s) = .ok none := by
-    unfold parseSideDisp sideLeaves; kv_simp
-  have ep : parseSidePoints (sideLeaves s) = .ok none := by
-    unfold parseSidePoints sideLeaves; kv_simp
-  rw [ed, ep]
+  rw [hd, hp]
   simp only []
-  have e1 : getInt "id" (-1) (sideLeaves s) = s.id := by
-    unfold sideLeaves; kv_simp; simp [parseInt_showInt]
+  have e1 : getInt "id" (-1) (sideLeaves s ++ extra) = s.id := by
+    unfold getInt; rw [gl]; unfold sideLeaves; kv_simp; simp [parseInt_showInt]
   have e2 : getLeaf "material" (sideLeaves s) = some s.mat := by unfold sideLeaves; kv_simp
-  have e3 : getFloat "rotation" ['0'] (sideLeaves s) = s.rot := by
-    unfold sideLeaves; kv_simp; simp [hr]
-  have e4 : getInt "lightmapscale" 16 (sideLeaves s) = s.lightmap := by
-    unfold sideLeaves; kv_simp; simp [parseInt_showInt]
-  have e5 : getInt "smoothing_groups" 0 (sideLeaves s) = s.smooth := by
-    unfold sideLeaves; kv_simp; simp [parseInt_showInt]
-  rw [e1, e2, e3, e4, e5]
+  have e3 : getFloat "rotation" ['0'] (sideLeaves s ++ extra) = s.rot := by
+    unfold getFloat; rw [gl]; unfold sideLeaves; kv_simp; simp [hr]
+  have e4 : getInt "lightmapscale" 16 (sideLeaves s ++ extra) = s.lightmap := by
+    unfold getInt; rw [gl]; unfold sideLeaves; kv_simp; simp [parseInt_showInt]
+  have e5 : getInt "smoothing_groups" 0 (sideLeaves s ++ extra) = s.smooth := by
+    unfold getInt; rw [gl]; unfold sideLeaves; kv_simp; simp [parseInt_showInt]
+  rw [e1, gl, e2, e3, e4, e5]
   cases s
   simp_all
 
+/-- v1: a face without displacement (Strata point data allowed). -/
+def SideOK1 (s : Side) : Bool :=
+  SideCoreOK s && (match s.points with
+    | some pts => pts.all V3OK
+    | none => true) && s.disp.isNone
 
+theorem parseSide_export1 (mb : Bool) (s : Side) (h : SideOK1 s = true) :
+    parseSide (exportSide mb s) = .ok s := by
+  simp only [SideOK1, Bool.and_eq_true, Option.isNone_iff_eq_none] at h
+  obtain ⟨⟨hc, hp⟩, hd⟩ := h
+  cases hpts : s.points with
+  | none =>
+    have hexp : exportSide mb s = KV.block "side".toList (sideLeaves s ++ []) := by
+      simp [exportSide, hpts, hd, sideLeaves, kBlock]
+    rw [hexp, parseSide_core _ s [] (by simp) none none (by
+        simp only [List.append_nil]; unfold parseSideDisp sideLeaves; kv_simp) (by
+        simp only [List.append_nil]; unfold parseSidePoints sideLeaves; kv_simp) hc]
+    cases s; simp_all
+  | some pts =>
+    rw [hpts] at hp
+    simp only [List.all_eq_true] at hp
+    have hexp : exportSide mb s = KV.block "side".toList (sideLeaves s ++ [exportPoints pts]) := by
+      simp [exportSide, hpts, hd, sideLeaves, kBlock]
+    have hdisp : parseSideDisp (sideLeaves s ++ [exportPoints pts]) = .ok none := by
+      unfold parseSideDisp sideLeaves exportPoints; kv_simp
+    have hpoints : parseSidePoints (sideLeaves s ++ [exportPoints pts]) = .ok (some pts) := by
+      have h1 : hasBlock "point_data" (sideLeaves s ++ [exportPoints pts]) = true := by
+        unfold hasBlock; rw [findLast_append]; simp [findLast, exportPoints, kBlock, named, KV.fname, KV.name, KV.isBlock, lower]
+      have h2 : getBlock "point_data" (sideLeaves s ++ [exportPoints pts])
+          = kInt "numpts" pts.length :: pointLeaves 0 pts := by
+        unfold getBlock; rw [findLast_append]
+        simp [findLast, exportPoints, kBlock, named, KV.fname, KV.name, KV.isBlock, KV.kids, lower]
+      simp only [parseSidePoints, h1, if_true, h2, parsePoints_export pts hp]
+    rw [hexp, parseSide_core _ s [exportPoints pts] (by simp [exportPoints, kBlock, KV.isBlock]) none (some pts) hdisp hpoints hc]
+    cases s; simp_all
 
 
 theorem foldE_append {σ} (step : σ → KV → Except Err σ) (st : σ) (a b : List KV) :
@@ -2810,6 +2935,7 @@ theorem assignIds_injective (m : VMap) : IdsInjective (assignIds false m) := by
     exact ⟨hs.nodup, hs.pos⟩
   · simp only [assignIds, entSolids, List.flatMap_cons, solidFaceIds_append]
     exact ⟨hf.nodup, hf.pos⟩
+
 
 
 end C06
